@@ -21,6 +21,13 @@ package rpm
 
 // Two-cursor scanner: outside the loop shapes govc summarises; bounded stand-in.
 //@ func compareRPMVersionString
+//@   loop 1 invariant 0 <= i && i <= len(a) && 0 <= j && j <= len(b)
+//@   loop 2 invariant 0 <= i && i <= len(a)
+//@   loop 3 invariant 0 <= j && j <= len(b)
+//@   loop 4 invariant 0 <= i && i <= len(a) && iStart <= i
+//@   loop 5 invariant 0 <= j && j <= len(b) && jStart <= j
+//@   loop 6 invariant 0 <= i && i <= len(a) && iStart <= i
+//@   loop 7 invariant 0 <= j && j <= len(b) && jStart <= j
 //@   bounded alphabet "019a~.^" maxlen 3
 //@   comparator a ~ b                                     [C01]
 
